@@ -130,6 +130,9 @@ class ExpressionTransformer:
         self.nsp = nsp
 
     def get_pending(self, node: expr) -> PendingExprGeneric:
+        if isinstance(node, (Yield, YieldFrom, Await)):
+            # generators and coroutines can not be converted (see "Limitations")
+            raise RuntimeError(f"Unable to convert node '{type(node).__name__}'")
         if isinstance(node, NamedExpr):
             return PendingNamedExpr(node, self.nsp)
         elif isinstance(node, Name):
